@@ -38,8 +38,17 @@ def run(ctx, crate, clause="border-offsets"):
                 bh = [ev for ev in e.events.values() if ev.callee == "nested::Layer::build_hash"]
                 if len(bh) != 1: continue
                 bits = bh[0].args[1]
-                has = lambda m: any(x == m for x in walk(bits))
-                fx, fy = has(XM) or has(XYM), has(YM) or has(XYM)
+                # read the base-cell bits at depth 2 (twice_depth = 4, masks 0101 / 1010 / 1111): a coordinate is
+                # forced iff all its bits are set in the value handed to build_hash
+                from rules.common import feval
+                envm = {XM: 0b0101, YM: 0b1010, XYM: 0b1111, fld("twice_depth"): 4, fld("depth"): 2}
+                vbits = feval(bits, envm, e)
+                if vbits is None:
+                    has = lambda m: any(x == m for x in walk(bits))
+                    fx, fy = has(XM) or has(XYM), has(YM) or has(XYM)
+                else:
+                    fx, fy = (vbits & 0b0101) == 0b0101, (vbits & 0b1010) == 0b1010
+                    if not (0 <= (vbits >> 4) <= 11): bad.append(((i, j), "base cell %d" % (vbits >> 4), "", ""))
                 dx, dy = r.ret[3][1], r.ret[3][2]
                 is1 = lambda t: t[0] == 'c' and t[1] == 'f64' and t[2] == 0x3FF0000000000000
                 n += 1
@@ -125,3 +134,30 @@ def tiebreaks(ctx, crate, depths=(0, 2, 7, 29), clause="border-offsets"):
     ctx.report(clause, FN + ":pushed-coordinate-used", not bad_push and n_push >= 12,
                "%d (key, outcome) cases of k = 3: the larger coordinate is pushed over the base-cell border and the pushed cell coordinates are the ones decoded afterwards" % n_push if not bad_push else
                "depth %s key %s: %s" % bad_push[0], at=b.span, kind="N", sample={"cases": n_push, "mismatches": [list(map(str, x)) for x in bad_push[:3]]})
+
+
+def recursion_args(ctx, crate, clause="border-offsets"):
+    """N: the rounding cases k = 3 and k = 4 of `depth0_bits` call it again on the box the position is
+    pushed into: (i + 1, j), (i, j + 1) or (i + 1, j + 1) — each coordinate of the recursive call is the
+    caller's own coordinate, possibly plus one (no i / j mix-up), and the cell coordinates handed on
+    are incremented on the same axes."""
+    D0B = "nested::Layer::depth0_bits"
+    b = ctx.anchor(crate, D0B, clause)
+    if b is None: return
+    e = Engine(crate, opaque={D0B, "nested::Layer::x_in_d0c_gt_y_in_d0c"}); e.run(D0B); ctx.functions |= e.visited_fns
+    rec = [ev for ev in e.events.values() if ev.callee == D0B and len(ev.site) == 2]
+    I, J = ('p', 'i'), ('p', 'j')
+    one = lambda t: t[0] == 'c' and t[2] == 1
+    def inc_of(t, base):
+        if t == base: return 0
+        if t[0] == 'op' and t[1] == 'add' and ((t[3] == base and one(t[4])) or (t[4] == base and one(t[3]))): return 1
+        return None
+    kinds = []
+    bad = []
+    for ev in rec:
+        a, c_ = inc_of(ev.args[1], I), inc_of(ev.args[2], J)
+        if a is None or c_ is None or a + c_ == 0: bad.append((show(ev.args[1])[:30], show(ev.args[2])[:30]))
+        else: kinds.append((a, c_))
+    ok = not bad and sorted(kinds) == [(0, 1), (1, 0), (1, 1)]
+    ctx.report(clause, D0B + ":rounding-cases-recurse-on-the-next-box", ok, "recursive calls on (i + 1, j), (i, j + 1), (i + 1, j + 1)" if ok else
+               "recursive calls of depth0_bits on %s" % (bad or kinds), at=b.span, kind="N")
